@@ -29,6 +29,11 @@ def env_op(kind, case):
                 logging.getLogger(name).setLevel(logging.DEBUG)
         logging.getLogger("bits").setLevel(logging.DEBUG)
         return []
+    if kind == "env-decimal":
+        # the embedding application selected a low-precision decimal context for this thread (decimal.BasicContext has 9 digits)
+        import decimal
+        decimal.setcontext(decimal.Context(prec=9, rounding=decimal.ROUND_HALF_EVEN))
+        return []
     raise RuntimeError(f"unknown environment operation {kind}")
 
 
